@@ -340,8 +340,22 @@ Rename(st, old, new) ==
             IF t.rt \in {"L", "C"} THEN l1
             ELSE [l1 EXCEPT !.refs = SubstRefs(l1.refs, old, new)]]])}
 
+\* --- whole-document entry points: Gfa(text | list), Gfa.from_file -------------
+RECURSIVE AddAll(_, _)
+AddAll(st, q) ==
+  IF q = <<>> THEN {Ok(st)}
+  ELSE UNION {IF o.res = "ok" THEN AddAll(o.st, Tail(q)) ELSE {o} : o \in Add(st, Head(q))}
+\* all lines, then the end-of-input delivery of the queue, then (level >= 1) the
+\* reference validation, which refuses a document with undefined references
+Load(st, ls) ==
+  LET fin == UNION {IF a.res # "ok" THEN {a} ELSE ProcessQueue(a.st) : a \in AddAll(st, ls)} IN
+  Commit(st, fin) \cup
+    {Fail(st, "Error") : f \in {x \in fin : x.res = "ok" /\ st.vlevel > 0 /\
+                                 (PlaceholderIds(x.st) # {} \/ VirtLinkKeys(x.st) # {})}}
+
 Step(st, op) ==
   CASE op.k = "add"   -> Add(st, op.l)
+    [] op.k = "load"  -> Load(st, op.ls)
     [] op.k = "flush" -> ProcessQueue(st)
     [] op.k = "rm"    -> Rm(st, op.id)
     [] op.k = "disc"  -> Disc(st, op.l)
